@@ -5,8 +5,8 @@ use educe::Educe;
 use core::cmp::Ordering;
 #[derive(Educe)]
 #[educe(Hash)]
-pub struct T { #[educe(Hash = false)] _0: A<0>, builder: A<1> }
-pub fn values() -> Vec<T> { vec![T { _0: A(0), builder: A(0) }, T { _0: A(0), builder: A(1) }, T { _0: A(0), builder: A(7) }, T { _0: A(1), builder: A(0) }, T { _0: A(1), builder: A(1) }, T { _0: A(1), builder: A(7) }, T { _0: A(7), builder: A(0) }, T { _0: A(7), builder: A(1) }, T { _0: A(7), builder: A(7) }] }
-pub fn show(x: &T) -> String { #[allow(unused_variables)] match x { T { _0: p0, builder: p1 } => format!("T({},{})", sv(p0), sv(p1)) } }
-pub fn o_hash(x: &T) -> Vec<String> { let mut e = Rec::default(); match x { T { _0: p0, builder: p1 } => { ::core::hash::Hash::hash(p1, &mut e); } } e.0 }
+pub enum T { Unit(#[educe(Hash(ignore(true)))] A<0>), V1, None(A<0>, A<0>, #[educe(Hash(method(m_hash)))] A<0>) }
+pub fn values() -> Vec<T> { vec![T::Unit(A(0)), T::Unit(A(1)), T::Unit(A(7)), T::V1, T::None(A(0), A(1), A(1)), T::None(A(7), A(0), A(0)), T::None(A(1), A(0), A(7)), T::None(A(7), A(1), A(0)), T::None(A(1), A(1), A(7)), T::None(A(1), A(1), A(1)), T::None(A(0), A(7), A(0)), T::None(A(0), A(1), A(0)), T::None(A(0), A(0), A(1)), T::None(A(0), A(7), A(7)), T::None(A(1), A(1), A(0)), T::None(A(1), A(7), A(0)), T::None(A(1), A(7), A(7)), T::None(A(7), A(7), A(1)), T::None(A(7), A(1), A(1)), T::None(A(1), A(7), A(1))] }
+pub fn show(x: &T) -> String { #[allow(unused_variables)] match x { T::Unit(p0) => format!("Unit({})", sv(p0)), T::V1 => format!("V1()"), T::None(p0, p1, p2) => format!("None({},{},{})", sv(p0), sv(p1), sv(p2)) } }
+pub fn o_hash(x: &T) -> Vec<String> { let mut e = Rec::default(); match x { T::Unit(p0) => { ::core::hash::Hash::hash(&0usize, &mut e); }, T::V1 => { ::core::hash::Hash::hash(&1usize, &mut e); }, T::None(p0, p1, p2) => { ::core::hash::Hash::hash(&2usize, &mut e); ::core::hash::Hash::hash(p0, &mut e); ::core::hash::Hash::hash(p1, &mut e); m_hash(p2, &mut e); } } e.0 }
 pub fn run(out: &mut Out) { let vs = values(); for a in &vs { let mut g = Rec::default(); ::core::hash::Hash::hash(a, &mut g); let e = o_hash(a); out.check(g.0 == e, "hash_1", "hash", || format!("hash({}) fed {:?} expected {:?}", show(a), g.0, e)); } }
